@@ -1,7 +1,8 @@
 (* C14 -- The connection layer reassembles messages exactly under arbitrary fragmentation. *)
 From Coq Require Import String Ascii List Bool Arith NArith ZArith.
 From KV Require Import Lib.Str Lib.ByteSeq Gen.CxxConn Model.Conn Spec.StreamParse
-                       Proofs.ByteSeqProofs Proofs.ConnProofs Proofs.StreamParseProofs Proofs.ConnSafe Proofs.ConnOversize.
+                       Proofs.ByteSeqProofs Proofs.ConnProofs Proofs.StreamParseProofs Proofs.ConnSafe Proofs.ConnOversize
+                       Model.ConnArm Proofs.ConnArmSafe Proofs.ConnArmProofs.
 (* not used by the statements below: Model.Proto is extracted into build/kmodel together with Model.Conn, so its .vo has to be
    rebuilt with this closure whenever Gen/CxxConn.v is regenerated *)
 From KV Require Model.Proto.
@@ -111,3 +112,54 @@ Example C14_reassembly_nonvacuous_equal_preamble_bytes :
   feed p0 p1 init (ex_chunks p0 p1) = Done init (map snd (ex_items p0 p1)).
 Proof. vm_compute. repeat split; reflexivity. Qed.
 Print Assumptions C14_reassembly_nonvacuous_equal_preamble_bytes.
+
+(* ================= the __arm__ configuration (Model/ConnArm.v: fixed buffer of FRAGMENT_BUF_SIZE = cap bytes, uint16 count) ================= *)
+
+(* Reassembly: for ANY LargestMessageSize() the receiver announces (largest = that value as a uint16, capped at the buffer size),
+   every well-formed stream whose messages are at most `largest` bytes long, cut into chunks of at most cap - largest + 1 bytes
+   (so that a chunk plus the at most largest-1 pending bytes never exceeds the buffer: the code sets the exceed flag when
+   count + pending > FRAGMENT_BUF_SIZE and then stops copying), is delivered exactly; the connection ends idle. *)
+Theorem C14_reassembly_arm : forall p0 p1 lms items tail chunks,
+  let largest := eff_largest lms in
+  forallb (wf_item p0 p1) items = true -> forallb (msg_fits largest) items = true -> filler_ok p0 tail = true ->
+  forallb (chunk_fits largest) chunks = true ->
+  concat chunks = stream_of items tail ->
+  exists sa, feed_arm p0 p1 largest ainit chunks = ADone sa (map snd items) /\
+             cnt sa = 0 /\ areq sa = 0 /\ exc sa = false.
+Proof. exact reassembly_arm. Qed.
+Print Assumptions C14_reassembly_arm.
+
+(* Safety of the repaired __arm__ code on EVERY input (arbitrary bytes, arbitrary chunking, arbitrary announced largest message
+   size): never a read outside the received data or the fixed buffer, never a write past the buffer, never a failed assert,
+   every call terminates within fuel 2*count+2. *)
+Theorem C14_safe_arm : forall p0 p1 lms chunks,
+  forallb achunk_ok chunks = true ->
+  exists st ds, feed_arm p0 p1 (eff_largest lms) ainit chunks = ADone st ds /\ ainv p0 p1 (eff_largest lms) st.
+Proof. exact arm_safe_on_every_input. Qed.
+Print Assumptions C14_safe_arm.
+
+(* The chunk bound of C14_reassembly_arm is forced (known finding K-C14-3): with largest = cap = 512, a 100 byte message of
+   which 50 bytes are pending and a next chunk of 500 bytes (50 + 500 > 512): the pending message is lost (parsed over),
+   only the messages behind it are delivered -- although every message fits and the stream is well-formed. *)
+Definition k3_b (n : N) : byte := ascii_of_N n.
+Definition k3_msg (payload : N) : list byte :=
+  [k3_b 170; k3_b 85; k3_b 1; k3_b 0] ++ le_encode 4 payload ++ repeat (k3_b 7) (N.to_nat payload).
+Definition k3_stream : list byte := k3_msg 92 ++ concat (repeat (k3_msg 20) 16) ++ firstn 2 (k3_msg 20).
+Definition k3_chunks : list (list byte) := [firstn 50 k3_stream; skipn 50 k3_stream].
+
+Theorem C14_reassembly_arm_chunk_bound_refuted :
+  len (k3_msg 92) = 100 /\ wf_msg (k3_b 170) (k3_b 85) (k3_msg 92) = true /\ msg_fits (eff_largest 512) ([], k3_msg 92) = true /\
+  map len k3_chunks = [50; 500] /\
+  exists sa, feed_arm (k3_b 170) (k3_b 85) (eff_largest 512) ainit k3_chunks = ADone sa (repeat (k3_msg 20) 16).
+Proof. repeat split; try (vm_compute; reflexivity). eexists. vm_compute. reflexivity. Qed.
+Print Assumptions C14_reassembly_arm_chunk_bound_refuted.
+
+Example C14_reassembly_arm_nonvacuous :
+  let p0 := ex_b 170 in let p1 := ex_b 85 in let largest := eff_largest 64 in
+  forallb (wf_item p0 p1) (ex_items p0 p1) = true /\ forallb (msg_fits largest) (ex_items p0 p1) = true /\
+  forallb (chunk_fits largest) (ex_chunks p0 p1) = true /\
+  concat (ex_chunks p0 p1) = stream_of (ex_items p0 p1) [ex_b 9] /\
+  exists sa, feed_arm p0 p1 largest ainit (ex_chunks p0 p1) = ADone sa (map snd (ex_items p0 p1)).
+Proof. repeat split; try (vm_compute; reflexivity). eexists. vm_compute. reflexivity. Qed.
+Print Assumptions C14_reassembly_arm_nonvacuous.
+
